@@ -7,7 +7,8 @@
 //   x:K:B                  client K stops (B=1) / resumes (B=0) reading: the server-side DataIO of session K reports no
 //                          writable socket, exactly what a full TCP send buffer looks like to ReflectServer::HandleEvents, so
 //                          replies pile up in the gateway's outgoing Message queue
-//   s:K:F:path=v&path=v    PR_COMMAND_SETDATA, F = SETDATANODE_FLAG_* bits, relative literal paths, int32 payload field "v"
+//   s:K:F:path=v&path=v    PR_COMMAND_SETDATA, F = SETDATANODE_FLAG_* bits (1 DONTCREATE, 2 DONTOVERWRITE, 4 QUIET, 16 ENABLESUPERCEDE),
+//                          relative literal paths, int32 payload field "v"
 //   r:K:Q:pat&pat@f        PR_COMMAND_REMOVEDATA (Q=1: PR_NAME_REMOVE_QUIETLY)
 //   p:K:Q:pat&pat@f        PR_COMMAND_SETPARAMETERS with SUBSCRIBE:<pat> fields (Q=1: PR_NAME_SUBSCRIBE_QUIETLY)
 //   m:K:N  /  um:K         PR_NAME_MAX_UPDATE_MESSAGE_ITEMS = N  /  back to the default
